@@ -22,28 +22,8 @@ type Case struct {
 	Edits []string        `json:"edits"`
 }
 
-func Cfg() *specgen.SpecCfg {
-	return &specgen.SpecCfg{
-		Schema: specgen.Opts{Name: specgen.TextName, MaxDepth: 3, AllOf: true, AddlProps: true,
-			Defaults: true, Examples: true, Extensions: true, Descr: true},
-		Simple:  specgen.SimpleOpts{Defaults: true, Extensions: true, MaxDepth: 2, File: true},
-		MinDefs: 1, MaxDefs: 4, MinPaths: 1, MaxPaths: 3, MaxParams: 3,
-		ParamName: specgen.TextName,
-		Tags:      true, Meta: true, Security: true, Extensions: true, SharedParams: true, RespHeaders: true,
-		FormData: true, Body: true, Deprecated: true, OpConsumes: true, DefaultResponse: true,
-	}
-}
-
 func gen(t *rapid.T) Case {
-	a := specgen.Spec(t, Cfg())
-	b := specgen.CloneJ(a)
-	n := rapid.IntRange(1, 6).Draw(t, "nedits")
-	var kinds []string
-	for i := 0; i < n; i++ {
-		if k := specgen.RandomEdit(t, fmt.Sprintf("e%d", i), b); k != "" {
-			kinds = append(kinds, k)
-		}
-	}
+	a, b, kinds := diffx.GenPair(t, 6)
 	return Case{A: specgen.JSONBytes(a), B: specgen.JSONBytes(b), Edits: kinds}
 }
 
